@@ -263,7 +263,18 @@ def raw_truth_rows(qdiff, env, base, text, R, raw_R, argnames):
         if isinstance(st, tuple) and st[0] == 'set':
             try: v = it.ev(node, e)
             except Exception: return None
-            out.extend([r] * len(v)); continue          # the collection is JOINED instead of tested with EXISTS
+            # the collection is JOINED instead of tested with EXISTS and its primary key COLUMNS are the condition: one
+            # output row per item whose every key column is "true" for sqlite (non-zero number / text with a non-zero
+            # numeric prefix) -- always the case for integer keys >= 1, not for the text part of a composite key
+            def sq_true(x):
+                if x is None: return False
+                if isinstance(x, tuple): return all(sq_true(i) for i in x)
+                if isinstance(x, str):
+                    m = re.match(r'^\s*[+-]?(\d+\.?\d*(?:[eE][+-]?\d+)?|\.\d+(?:[eE][+-]?\d+)?)', x)
+                    try: return bool(m) and float(m.group(0)) != 0
+                    except ValueError: return False
+                return x != 0
+            out.extend([r] * sum(1 for item in v if sq_true(item.id))); continue
         if st != 'str': return None
         try: v = it.ev(node, e)
         except Exception: return None
